@@ -64,6 +64,7 @@ func (b *pb) tokenChain(g *gen.G, nb int, maxFacts, maxRules, maxChecks int) (in
 
 func genC04(r *rand.Rand, run int, tier string) *vm.Plan {
 	g := gen.New(r)
+	g.BoundaryInts()
 	b := newPB(r)
 	nb := []int{0, 0, 1, 1, 2, 3}[r.Intn(6)]
 	key, toks := b.tokenChain(g, nb, 5, 3, 2)
